@@ -48,7 +48,7 @@ func (c *Ctx) Fork(n int) {
 			defer wg.Done()
 			part := filepath.Join(dir, fmt.Sprintf("part%d.json", i))
 			cmd := exec.Command(exe, "-prop", c.R.ID, "-tier", c.Tier, "-shard", fmt.Sprint(i), "-nshards", fmt.Sprint(n), "-partial", part)
-			cmd.Env = append(os.Environ(), "GOMAXPROCS=1")
+			cmd.Env = append(os.Environ(), "GOMAXPROCS=1", "MC_PARTIAL="+part)
 			cmd.Dir = dir
 			outs[i], errs[i] = cmd.CombinedOutput()
 			if errs[i] == nil {
